@@ -46,6 +46,8 @@ class World:
         # clients 0..2 are members; client 3 is not
         for i in range(3):
             d.sio.enter_room(self.sids[i], ROOM, namespace=NS)
+        d.sio.enter_room(self.sids[0], 'solo', namespace=NS)
+        self.extra = d.open()       # a transport that is not connected yet
         for t in self.T:
             t.drain()
         self.wrap()
@@ -96,6 +98,16 @@ class World:
             return lambda: sio.enter_room(self.sids[3], ROOM, namespace=NS)
         if name == 'close_room':
             return lambda: sio.close_room(ROOM, namespace=NS)
+        if name == 'enter_new':
+            # another client creates a room that did not exist: the
+            # namespace's room table grows
+            return lambda: sio.enter_room(self.sids[3], 'fresh',
+                                          namespace=NS)
+        if name == 'leave_last':
+            # the only member of a room leaves it: the table shrinks
+            return lambda: sio.leave_room(self.sids[0], 'solo', namespace=NS)
+        if name == 'connect_new':
+            return lambda: self.extra.connect(NS)
         if name in ('enter_self', 'enter_self_other'):
             room = ROOM if name == 'enter_self' else 'other'
 
@@ -220,7 +232,7 @@ def explore(ctx, racers, limit, bound=None):
     return n, choices is None
 
 
-def run_self_race(ctx, racers, choices, rng, bound=None):
+def run_self_race(ctx, racers, choices, rng, bound=None, lines=False):
     """A client is disconnected (namespace level; its transport stays up)
     while another thread adds it to a room.  Whatever the order, once both
     have finished a disconnected client is in no room: rooms() is empty and
@@ -231,10 +243,22 @@ def run_self_race(ctx, racers, choices, rng, bound=None):
     w = World(sched)
     for r in racers:
         sched.spawn(r, w.actor(r))
-    trace = sched.run()
+    if lines:
+        # every statement of the manager modules is a pre-emption point
+        import socketio.base_manager
+        import socketio.manager
+        SC.enable_lines(sched, [socketio.base_manager.__file__,
+                                socketio.manager.__file__])
+    try:
+        trace = sched.run()
+    finally:
+        if lines:
+            SC.disable_lines()
     ctx.count('self_race_schedules')
-    wit = {'part': 'self_race', 'racers': racers,
-           'choices': [c for _, c in trace],
+    if lines:
+        ctx.count('room_table_race_schedules_statement_level')
+    wit = {'part': 'self_race', 'racers': racers, 'statement_level': lines,
+           'bound': bound, 'choices': [c for _, c in trace],
            'labels': [[a, lbl] for a, lbl in sched.labels][-80:]}
     if sched.aborted:
         SC.report_abort(ctx, sched, wit, 'room-operation race: schedule did '
@@ -289,12 +313,12 @@ def run_self_race(ctx, racers, choices, rng, bound=None):
     return trace
 
 
-def explore_self(ctx, racers, limit):
+def explore_self(ctx, racers, limit, bound=None, lines=False):
     choices = []
     n = 0
     while choices is not None and n < limit and \
             not ctx.too_many_violations():
-        trace = run_self_race(ctx, racers, choices, None)
+        trace = run_self_race(ctx, racers, choices, None, bound, lines)
         n += 1
         choices = SC.next_schedule(trace)
     return n, choices is None
@@ -330,6 +354,18 @@ def run_part(ctx, seconds):
         n, complete = explore_self(ctx, racers,
                                    200 if ctx.tier == 'quick' else 5000)
         summary['+'.join(racers)] = {'schedules': n, 'complete': complete}
+    # a client is removed while other clients change the namespace's room
+    # table (a new room appears, the last member of a room leaves, a client
+    # connects): statement-level schedules with at most one pre-emption
+    for racers in (['sdisc', 'enter_new'], ['lose', 'leave_last'],
+                   ['sdisc', 'connect_new'], ['lose', 'enter_new']):
+        if time.time() > t_end + 8 or ctx.too_many_violations():
+            break
+        n, complete = explore_self(ctx, racers,
+                                   250 if ctx.tier == 'quick' else 5000,
+                                   bound=1, lines=True)
+        summary['+'.join(racers) + ' (statement level, <=1 pre-emption)'] = \
+            {'schedules': n, 'complete': complete}
     while time.time() < t_end and not ctx.too_many_violations():
         rng = ctx.case_rng(7 * 10 ** 7 + k)
         racers = list(rng.choice(jobs))
@@ -342,5 +378,7 @@ def run_part(ctx, seconds):
 def replay(ctx, w):
     wi = w['witness']
     if wi.get('part') == 'self_race':
-        return run_self_race(ctx, wi['racers'], wi['choices'], None)
+        return run_self_race(ctx, wi['racers'], wi['choices'], None,
+                             wi.get('bound'), wi.get('statement_level',
+                                                     False))
     run_schedule(ctx, wi['racers'], wi['choices'], None)
